@@ -69,6 +69,11 @@ pub fn ctanh(a: C) -> C {
 }
 
 pub fn lit(s: &str) -> Option<C> {
+    if let Some(body) = s.strip_prefix("cpx:") {
+        // internal: an operand given by its bit patterns (never sent to the library)
+        let (a, b) = body.split_once(':')?;
+        return Some((f64::from_bits(u64::from_str_radix(a, 16).ok()?), f64::from_bits(u64::from_str_radix(b, 16).ok()?)));
+    }
     if s == "i" {
         return Some((0.0, 1.0));
     }
